@@ -19,6 +19,7 @@ import VsgModel.Engine.RuleRun
 import VsgProofs.Lemmas.Engine
 import VsgProofs.Lemmas.Iterate
 import VsgProofs.Lemmas.SortByStart
+import VsgProofs.Properties.C10   -- wp2c_selstable
 namespace Vsgm.C09
 open Vsgm Vsgm.Iter
 
@@ -163,5 +164,27 @@ example :
     let t (c : Nat) : Tok := ⟨c, .code, ['a']⟩
     (fixRun [r] 7 [] none id [t 1, t 7, t 2]).1 = [t 1, t 2] ∧
     fixRun [r] 7 [] none id [t 1, t 2] = ([t 1, t 2], false) := by decide
+
+/-! ### BEGIN wp2c_selstable (token_indent, 102 rules: one-step convergence of the rule's own fix) -/
+
+section wp2c_selstable
+open BFull2
+
+/-- **one-step convergence for the whole indent family**: iterating a token_indent rule's `Rule.fix` (any of the four
+    extractors) the sequence of files is constant from the first application on — no oscillation, no growth — for every
+    token list, indent assignment, size and both styles (guards as in `C10.bfull2_indent_idem_all`) -/
+theorem bfull2_indent_converges (r : RuleCfg) (uid : Tok → Option TM.Key) (P : Params) (ind : Oracle) (f : List Tok)
+    (hf : r.fixable = true) (hcs : CsOk P.cs) (hs : StyleOk P) (hu : UidOk uid P) (hP : VarOk P)
+    (hb : ∀ t ∈ f, t.isBof = false) :
+    ∀ n, 1 ≤ n → iter (fun x => (ruleFix r (sem uid P ind) none x).1) n f = (ruleFix r (sem uid P ind) none f).1 := by
+  apply no_cycle_of_fixpoint
+  have := C10.bfull2_indent_second_fix_all r uid P ind f hf hcs hs hu hP hb
+  show (ruleFix r (sem uid P ind) none (ruleFix r (sem uid P ind) none f).1).1 = (ruleFix r (sem uid P ind) none f).1
+  rw [this]
+
+end wp2c_selstable
+
+/-! ### END wp2c_selstable -/
+
 
 end Vsgm.C09
